@@ -82,8 +82,9 @@ async def run(chk, program, dep, kills, lines, impl, oracle=True):
         prog.stmts = getattr(d, "_stmts", {})
         prog.next_sid = getattr(d, "_next_sid", 0)
         cls, payload, ncols, plan, tok = prog.next()
-        if step["selfkill"] and cls == "query":
-            plan = dict(callSusp=plan["callSusp"], fail="none", ncols=0, rows=[], selfKill=step["selfkill"])
+        if step["selfkill"] and (cls == "query" or step.get("force")):
+            cls, ncols = "query", 0
+            plan = dict(callSusp=bool(plan and plan.get("callSusp")) and not step.get("force"), fail="none", ncols=0, rows=[], selfKill=step["selfkill"])
             tok = "query " + plan_token(plan)
             payload = b"\x03KILL 1"
             if step["selfkill"] == "c":
@@ -118,6 +119,9 @@ async def run(chk, program, dep, kills, lines, impl, oracle=True):
         # the command is over
         close_resp()
         d.cur = None
+        if oracle and not kills and step["selfkill"] == "q" and tok.startswith("query") and "selfKill" in (plan or {}) and resp[-1] != ["ok"]:
+            chk.fail("the issuing connection did not get exactly one response (OK) to its own KILL QUERY statement",
+                     dict(program=trace, deprecate_eof=dep, transport_blocked=step["block"]), dict(response=resp[-1]))
     nb = nev[0]
     if oracle:
         await settle(10)
@@ -163,9 +167,16 @@ def main():
 
     async def go():
         nprog = 80 if not chk.thorough else 1200
-        for pi in range(nprog):
-            program = make_program(rng)
-            dep = rng.random() < 0.5
+        # always there, whatever the random stream gives: a KILL aimed at the issuing connection itself, with its transport
+        # accepting data or not while the statement's own OK is written, followed by an ordinary command
+        fixed = [([dict(block=b, seed=17 + n, selfkill=k, force=True), dict(block=False, seed=99 + n, selfkill=None)], dep)
+                 for n, (b, k, dep) in enumerate([(b, k, dep) for b in (False, True) for k in ("q", "c") for dep in (False, True)])]
+        for pi in range(-len(fixed), nprog):
+            if pi < 0:
+                program, dep = fixed[pi + len(fixed)]
+            else:
+                program = make_program(rng)
+                dep = rng.random() < 0.5
             l0, i0 = [], []
             nb, trace, base_resp = await run(chk, program, dep, {}, l0, i0)
             lines.extend(l0)
